@@ -682,4 +682,271 @@ theorem resolveName_single (nc : NC) (pkg : List String) (head : String) :
   rw [← this]
   cases findName nc (L ++ [head]) <;> simp
 
+/-- the per-level part of `denote` -/
+def levelSpec (bs : List (List String × Val)) (head : String) (rest : List String) (level : List String) : Option Val :=
+  match longestBound bs (level ++ head :: rest) (level.length + 1) (level ++ head :: rest).length with
+  | some (k, v) => selectFields v ((level ++ head :: rest).drop k)
+  | none => none
+
+theorem denote_eq (bs : List (List String × Val)) (pkg : List String) (head : String) (rest : List String) :
+    denote bs pkg head rest =
+      ((targets pkg).findSome? fun L => if bindsUnder bs (L ++ [head]) then some (levelSpec bs head rest L) else none).join := by
+  rfl
+
+theorem resolve_eq_denote_aux (r : Runner) (bs : List (List String × Val)) (pkg : List String) (head : String)
+    (rest : List String) (hne : NonEmptyNames bs) (hpf : PrefixFree bs)
+    (hpkg : ∀ b, b ∈ bs → ¬ b.1 <+: pkg)
+    (hns : ∀ L, L <+: pkg → ¬ namespaceOnly bs (L ++ head :: rest)) :
+    eval r pkg [loadValues [] bs] (.ref head rest) = denote bs pkg head rest := by
+  rw [denote_eq]
+  have hev : eval r pkg [loadValues [] bs] (.ref head rest) =
+      (resolveName [loadValues [] bs] pkg head).bind fun r0 => (rest.foldlM memberDot r0).bind Res.toVal := by
+    simp only [eval, bind, Option.bind]
+  rw [hev, resolveName_single]
+  -- bound prefixes shorter than the level would be bindings on the package path
+  have hshort : ∀ L, L <+: pkg → ∀ (t : List String) k, k ≤ L.length → boundAt bs ((L ++ t).take k) = none := by
+    intro L hL t k hk
+    cases hb : boundAt bs ((L ++ t).take k) with
+    | none => rfl
+    | some w =>
+      exfalso
+      have hm := boundAt_some_mem hb
+      have : (L ++ t).take k = L.take k := by
+        rw [List.take_append_of_le_length hk]
+      rw [this] at hm
+      exact hpkg _ hm ((List.take_prefix k L).trans hL)
+  apply findSome_align
+  · -- a level is chosen by the code exactly when it binds the head identifier
+    intro L hLm
+    have hL := mem_targets hLm
+    rw [walk_loaded _ bs hpf hne (by simp)]
+    cases hb : boundAt bs (L ++ [head]) with
+    | some v =>
+      have := specRes_bound (L ++ [head]) bs (L ++ [head]).length v hpf (by simp) (Nat.le_refl _)
+        (by rw [List.take_length]; exact hb)
+      have hbu : bindsUnder bs (L ++ [head]) = true := by
+        simp only [bindsUnder, List.any_eq_true, List.isPrefixOf_iff_prefix]
+        exact ⟨(L ++ [head], v), boundAt_some_mem hb, List.prefix_refl _⟩
+      rw [this, hbu]
+      simp [List.foldlM]
+    | none =>
+      refine (specRes_unbound (L ++ [head]) bs hne (by simp) ?_).1
+      intro k hk0 hk
+      by_cases hkl : k ≤ L.length
+      · exact hshort L hL [head] k hkl
+      · have : k = (L ++ [head]).length := by simp at hk ⊢; omega
+        subst this
+        rw [List.take_length]; exact hb
+  · intro L hLm hc
+    have hL := mem_targets hLm
+    have hfull : L ++ head :: rest = (L ++ [head]) ++ rest := by simp
+    have hw : ((walk (loadValues [] bs) (L ++ [head])).bind fun r0 => (rest.foldlM memberDot r0).bind Res.toVal) =
+        (walk (loadValues [] bs) (L ++ head :: rest)).bind Res.toVal := by
+      have hwa := walk_append (loadValues [] bs) (L ++ [head]) rest (by simp)
+      rw [← hfull] at hwa
+      rw [hwa]
+      cases walk (loadValues [] bs) (L ++ [head]) <;> simp
+    rw [hw, walk_loaded _ bs hpf hne (by simp)]
+    simp only [levelSpec]
+    cases hlb : longestBound bs (L ++ head :: rest) (L.length + 1) (L ++ head :: rest).length with
+    | some kv =>
+      rcases kv with ⟨k0, v⟩
+      obtain ⟨_, h0, hk, hv⟩ := longestBound_eq_some hlb
+      rw [specRes_bound _ bs k0 v hpf h0 hk hv]
+      exact foldlM_val _ v
+    | none =>
+      have hun : ∀ k, 0 < k → k ≤ (L ++ head :: rest).length → boundAt bs ((L ++ head :: rest).take k) = none := by
+        intro k hk0 hk
+        by_cases hkl : k ≤ L.length
+        · exact hshort L hL (head :: rest) k hkl
+        · exact longestBound_eq_none hlb k (by omega) hk0 hk
+      obtain ⟨h1, h2⟩ := specRes_unbound (L ++ head :: rest) bs hne (by simp) hun
+      cases hs : specRes bs (L ++ head :: rest) with
+      | none => rfl
+      | some res =>
+        exfalso
+        -- the reference would be a pure namespace prefix
+        have hbu : bindsUnder bs (L ++ head :: rest) = true := by rw [← h1, hs]; rfl
+        simp only [bindsUnder, List.any_eq_true, List.isPrefixOf_iff_prefix] at hbu
+        obtain ⟨b, hbm, hpre⟩ := hbu
+        apply hns L hL
+        refine ⟨b, hbm, hpre, ?_⟩
+        intro heq
+        have : (boundAt bs (L ++ head :: rest)).isSome = true :=
+          boundAt_isSome_iff.mpr ⟨b.2, by rw [heq]; exact hbm⟩
+        have hx := hun (L ++ head :: rest).length (by simp; omega) (Nat.le_refl _)
+        simp only [List.take_length] at hx
+        simp [hx] at this
+
+/-- the container `nested_activation(vars={x: v})` puts in front of the chain -/
+def varNC (x : String) (v : Val) : NC := setValue [] [x] v
+
+theorem varNC_eq (x : String) (v : Val) : varNC x v = [(x, .mk none (some v) [])] := by
+  simp [varNC, setValue, upsert, Node.empty, Node.ann, Node.kids]
+
+/-- lexically scoped reference semantics: innermost macro variable first, then the outer names -/
+def envFind (env : List (String × Val)) (h : String) : Option Val :=
+  match env with
+  | [] => none
+  | (x, v) :: rest => if x = h then some v else envFind rest h
+
+mutual
+def evalSpec (glob : String → List String → Option Val) : List (String × Val) → NE → Option Val
+  | env, .ref h rest =>
+      match envFind env h with
+      | some v => selectFields v rest
+      | none => glob h rest
+  | _, .lit v => some v
+  | env, .list es => do let vs ← evalSpecList glob env es; pure (.list vs)
+  | env, .map c x body => do
+      match (← evalSpec glob env c) with
+      | .list vs => do
+          let ws ← mapOpt (fun v => evalSpec glob ((x, v) :: env) body) vs
+          pure (.list ws)
+      | _ => none
+def evalSpecList (glob : String → List String → Option Val) : List (String × Val) → List NE → Option (List Val)
+  | _, [] => some []
+  | env, e :: es => do
+      let v ← evalSpec glob env e
+      let vs ← evalSpecList glob env es
+      pure (v :: vs)
+end
+
+def envChain (env : List (String × Val)) : List NC := env.map fun b => varNC b.1 b.2
+
+theorem targets_nil : targets [] = [[]] := by
+  simp [targets, List.range_succ]
+
+/-- without a package a name is looked up in each container of the chain, innermost first -/
+theorem resolveName_env (env : List (String × Val)) (chain0 : List NC) (h : String) :
+    resolveName (envChain env ++ chain0) [] h =
+      match envFind env h with
+      | some v => some (.val v)
+      | none => resolveName chain0 [] h := by
+  induction env with
+  | nil => simp [envChain, envFind]
+  | cons b rest ih =>
+    rcases b with ⟨x, v⟩
+    simp only [resolveName, targets_nil, List.findSome?_cons, List.findSome?_nil, resolveAt, envChain,
+      List.map_cons, List.cons_append, List.nil_append, varNC_eq, findName, lookup, envFind] at ih ⊢
+    by_cases hx : x = h
+    · subst hx
+      simp [Node.result]
+    · simp only [hx, ↓reduceIte]
+      simpa using ih
+
+
+theorem eval_ref (r : Runner) (pkg : List String) (chain : List NC) (h : String) (rest : List String) :
+    eval r pkg chain (.ref h rest) =
+      (resolveName chain pkg h).bind fun r0 => (rest.foldlM memberDot r0).bind Res.toVal := by
+  simp only [eval, bind, Option.bind]
+
+/-- what a reference means outside every macro: the evaluator on the enclosing chain -/
+def outer (r : Runner) (chain0 : List NC) : String → List String → Option Val :=
+  fun h rest => eval r [] chain0 (.ref h rest)
+
+mutual
+/-- the evaluators bind macro variables lexically, at every nesting depth -/
+theorem eval_eq_evalSpec (r : Runner) (chain0 : List NC) :
+    ∀ (e : NE) (env : List (String × Val)),
+      eval r [] (envChain env ++ chain0) e = evalSpec (outer r chain0) env e
+  | .ref h rest, env => by
+      rw [eval_ref, resolveName_env]
+      simp only [evalSpec]
+      cases envFind env h with
+      | some v => simpa using foldlM_val rest v
+      | none => simp only [outer, eval_ref]
+  | .lit v, env => by simp [eval, evalSpec]
+  | .list es, env => by
+      simp only [eval, evalSpec, evalList_eq_evalSpecList r chain0 es env]
+  | .map c x body, env => by
+      simp only [eval, evalSpec, eval_eq_evalSpec r chain0 c env]
+      have hb : ∀ v, eval r [] (bindVar r (envChain env ++ chain0) x v) body =
+          evalSpec (outer r chain0) ((x, v) :: env) body := by
+        intro v
+        have := eval_eq_evalSpec r chain0 body ((x, v) :: env)
+        simpa [bindVar, envChain, varNC] using this
+      simp only [hb]
+      rfl
+theorem evalList_eq_evalSpecList (r : Runner) (chain0 : List NC) :
+    ∀ (es : List NE) (env : List (String × Val)),
+      evalList r [] (envChain env ++ chain0) es =
+        evalSpecList (outer r chain0) env es
+  | [], env => by simp [evalList, evalSpecList]
+  | e :: es, env => by
+      simp only [evalList, evalSpecList, eval_eq_evalSpec r chain0 e env, evalList_eq_evalSpecList r chain0 es env]
+end
+
+mutual
+theorem runners_agree (pkg : List String) : ∀ (e : NE) (chain : List NC), eval .I pkg chain e = eval .C pkg chain e
+  | .ref h rest, chain => by simp only [eval]
+  | .lit v, chain => by simp only [eval]
+  | .list es, chain => by simp only [eval, runners_agree_list pkg es chain]
+  | .map c x body, chain => by
+      simp only [eval, runners_agree pkg c chain]
+      have hb : ∀ v, eval .I pkg (bindVar .I chain x v) body = eval .C pkg (bindVar .C chain x v) body := by
+        intro v
+        simpa [bindVar] using runners_agree pkg body (setValue [] [x] v :: chain)
+      simp only [hb]
+theorem runners_agree_list (pkg : List String) : ∀ (es : List NE) (chain : List NC),
+    evalList .I pkg chain es = evalList .C pkg chain es
+  | [], chain => by simp only [evalList]
+  | e :: es, chain => by simp only [evalList, runners_agree pkg e chain, runners_agree_list pkg es chain]
+end
+
+
+theorem upsert_ne_nil (nc : NC) (k : String) (f : Node → Node) : upsert nc k f ≠ [] := by
+  cases nc with
+  | nil => simp [upsert]
+  | cons e rest =>
+    rcases e with ⟨k', n⟩
+    simp only [upsert]
+    split <;> simp
+
+theorem setValue_ne_nil (nc : NC) (p : List String) (v : Val) (hp : p ≠ []) : setValue nc p v ≠ [] := by
+  match p with
+  | [] => exact absurd rfl hp
+  | [f] => simp only [setValue]; exact upsert_ne_nil _ _ _
+  | h :: t1 :: t2 => simp only [setValue]; exact upsert_ne_nil _ _ _
+
+theorem walk_into_kids (nc : NC) (h : String) (t : List String) (a : Option Nat) (v : Option Val) (kids : NC)
+    (hl : lookup h nc = some (.mk a v kids)) (hk : kids ≠ []) (ht : t ≠ []) :
+    walk nc (h :: t) = walk kids t := by
+  cases t with
+  | nil => exact absurd rfl ht
+  | cons f t' =>
+    have hke : kids.isEmpty = false := by cases kids <;> simp_all
+    simp only [walk, hl, Option.bind_some, Node.result, hke, Bool.not_false, ↓reduceIte, List.foldlM_cons, memberDot]
+    cases lookup f kids with
+    | none => simp
+    | some n' => rcases n' with ⟨a', v', k'⟩; cases k' <;> simp [Node.result]
+
+/-- a declared, unbound name evaluates to its annotation; once bound, to the value -/
+theorem declared_then_bound (p : List String) (a : Nat) (v : Val) (hp : p ≠ []) :
+    walk (setAnn [] p a) p = some (.ann a) ∧ walk (setValue (setAnn [] p a) p v) p = some (.val v) := by
+  induction p with
+  | nil => exact absurd rfl hp
+  | cons h t ih =>
+    cases t with
+    | nil =>
+      simp [setAnn, setValue, lookup, upsert, walk, Node.result, Node.ann, Node.kids, List.foldlM]
+    | cons f t' =>
+      obtain ⟨ih1, ih2⟩ := ih (by simp)
+      have hA : setAnn [] (h :: f :: t') a = [(h, .mk none none (setAnn [] (f :: t') a))] := by
+        simp [setAnn, upsert, Node.empty, Node.ann, Node.value, Node.kids]
+      have hV : setValue (setAnn [] (h :: f :: t') a) (h :: f :: t') v =
+          [(h, .mk none none (setValue (setAnn [] (f :: t') a) (f :: t') v))] := by
+        rw [hA]
+        simp [setValue, upsert, Node.ann, Node.value, Node.kids]
+      have hne1 : setAnn [] (f :: t') a ≠ [] := by
+        cases t' with
+        | nil => simp [setAnn, lookup]
+        | cons g t'' => simp only [setAnn]; exact upsert_ne_nil _ _ _
+      constructor
+      · rw [hA, walk_into_kids _ h (f :: t') none none _ (by simp [lookup]) hne1 (by simp)]
+        exact ih1
+      · rw [hV, walk_into_kids _ h (f :: t') none none (setValue (setAnn [] (f :: t') a) (f :: t') v)
+          (by simp [lookup]) (setValue_ne_nil _ _ _ (by simp)) (by simp)]
+        exact ih2
+
 end Cel.Names
